@@ -304,6 +304,13 @@ func checkMain(id, tier string) int {
 	if v := envInt("VERIF_RUNS", 0); v > 0 {
 		total = v
 	}
+	if tier == "thorough" && os.Getenv("VERIF_NOSELFTEST") == "" {
+		// determinism self-test first: a harness that does not replay is not believed
+		if ok, msg := selftestRange(id, "quick", base, 0, 120); !ok {
+			fmt.Fprintln(os.Stderr, "harness: determinism self-test failed:", msg)
+			return 2
+		}
+	}
 	W := envInt("VERIF_WORKERS", runtime.NumCPU())
 	if W > total {
 		W = total
